@@ -285,9 +285,11 @@ func (r *Registry) collectProviderByPrefix(prefix string) []*keyedValueProvider 
 	r.l.RLock()
 	defer r.l.RUnlock()
 
-	// if there's a LongestPrefix provider that's the only one
-	// we need to ask
-	if _, p, ok := r.providers.LongestPrefix(prefix); ok {
+	// if there's a provider registered for a key prefix that contains
+	// the search prefix that's the only one we need to ask.
+	// A provider registered for a single key is only responsible for
+	// that key and does not hide the providers below the search prefix.
+	if key, p, ok := r.providers.LongestPrefix(prefix); ok && isPrefixKey(key) {
 		return []*keyedValueProvider{p.(*keyedValueProvider)} //nolint:forcetypeassert
 	}
 
